@@ -727,6 +727,10 @@ func (s *Sim) fanout(sender, origin p2p.PeerID, topic string, data []byte) {
 		s.Stats["gossip_topic_blackout"]++
 		return
 	}
+	if sn := s.nodeByPeer(sender); sn != nil && sn.MutedUntil > s.Now() {
+		s.Stats["gossip_from_muted_node_lost"]++
+		return
+	}
 	for _, to := range s.Peers(sender) {
 		if to == origin {
 			continue
